@@ -850,3 +850,75 @@ def warm_configs(tier, seed):
             add("parafac2", shape=[3, 0, 4], rows=[5, 5, 5] if init_as == "cp" else [4, 5, 4], rank=2, data="generic", init_weights=wk,
                 init_as=init_as, tol="tiny", twin=wk in ("positive", "mixed"))
     return cfgs
+
+
+# ------------------------------------------------------------------------------------------------
+# C07: objective sequences of the HALS NNLS solver and of the ridge regressors
+# ------------------------------------------------------------------------------------------------
+def objseq_cases(tier, seed):
+    rng = _rng(seed + 505)
+    n = 60 if tier == "thorough" else 14
+    cases = []
+    for k in range(n):
+        cases.append({"id": "nnls-%03d" % k, "kind": "hals_nnls", "seed": int(rng.randint(0, 10**6)),
+                      "r": int(rng.randint(1, 6)), "n": int(rng.randint(1, 5)), "m": int(rng.randint(5, 9)),
+                      "sparsity": [None, 0.1, None, 0.5][k % 4], "ridge": [None, None, 0.2, 0.1][k % 4],
+                      "start": ["none", "ones", "random"][k % 3], "signed": bool(k % 2)})
+    for k in range(n // 2):
+        cases.append({"id": "cpreg-%03d" % k, "kind": "cp_regressor", "seed": int(rng.randint(0, 10**6)),
+                      "shape": [[4, 3], [3, 2, 3], [3, 4]][k % 3], "samples": int(rng.randint(8, 14)), "rank": int(rng.randint(1, 4)),
+                      "reg": [0.1, 1.0, 10.0][k % 3]})
+        cases.append({"id": "tkreg-%03d" % k, "kind": "tucker_regressor", "seed": int(rng.randint(0, 10**6)),
+                      "shape": [[4, 3], [3, 2, 3], [3, 4]][k % 3], "samples": int(rng.randint(8, 14)), "rank": int(rng.randint(1, 3)),
+                      "reg": [0.1, 1.0, 10.0][k % 3]})
+    return cases
+
+
+def objseq_execute(c):
+    import tensorly as tl
+    rng = _rng(c["seed"])
+    ev = {"id": c["id"], "tr": c["id"], "ev": "ObjSeq", "kind": c["kind"], "objs": [], "cond": 0}
+    objs = []
+    if c["kind"] == "hals_nnls":
+        from tensorly.solvers.nnls import hals_nnls
+        U = rng.random_sample((c["m"], c["r"])) + 0.1
+        if c["signed"]:
+            U = rng.standard_normal((c["m"], c["r"]))
+        M = rng.standard_normal((c["m"], c["n"])) if c["signed"] else U @ (rng.random_sample((c["r"], c["n"]))) + 0.01 * rng.standard_normal((c["m"], c["n"]))
+        G, B = U.T @ U, U.T @ M
+        ls, lr = c["sparsity"], c["ridge"]
+
+        def f(V):
+            V = np.asarray(V)
+            return 0.5 * np.sum(V * (G @ V)) - np.sum(B * V) + (ls or 0) * np.sum(V) + (lr or 0) * np.sum(V * V)
+        V0 = {"none": None, "ones": np.ones((c["r"], c["n"])), "random": rng.random_sample((c["r"], c["n"]))}[c["start"]]
+        its = []
+        if V0 is not None:
+            its.append(V0.copy())
+        hals_nnls(B.copy(), G.copy(), None if V0 is None else V0.copy(), n_iter_max=30, tol=0, sparsity_coefficient=ls,
+                  ridge_coefficient=lr, callback=lambda V, e: its.append(np.array(V)))
+        objs = [f(V) for V in its]
+        ev["cond"] = int(math.ceil(math.log10(max(1.0, np.linalg.cond(G)))))
+    else:
+        from tensorly.regression import CPRegressor, TuckerRegressor
+        shape = tuple(c["shape"])
+        X = rng.standard_normal((c["samples"],) + shape)
+        Wtrue = rng.standard_normal(shape)
+        y = np.tensordot(X, Wtrue, axes=len(shape)) + 0.05 * rng.standard_normal(c["samples"])
+        for k in range(1, 9):
+            if c["kind"] == "cp_regressor":
+                est = CPRegressor(weight_rank=c["rank"], tol=0, reg_W=c["reg"], n_iter_max=k, random_state=c["seed"], verbose=0)
+                est.fit(X, y)
+                w, fs = est.cp_weight_
+                pen = sum(float(np.sum(np.asarray(f) ** 2)) for f in fs)
+            else:
+                ranks = [min(c["rank"], s) for s in shape]
+                est = TuckerRegressor(weight_ranks=ranks, tol=0, reg_W=c["reg"], n_iter_max=k, random_state=c["seed"], verbose=0)
+                est.fit(X, y)
+                G_, fs = est.tucker_weight_
+                pen = sum(float(np.sum(np.asarray(f) ** 2)) for f in fs) + float(np.sum(np.asarray(G_) ** 2))
+            pred = np.tensordot(X, np.asarray(est.weight_tensor_), axes=len(shape))
+            objs.append(float(np.sum((y - pred) ** 2)) + c["reg"] * pen)
+    scale = max(1.0, abs(objs[0])) if objs else 1.0
+    ev["objs"] = [qe(o / scale) for o in objs]
+    return ev
